@@ -278,7 +278,10 @@ func mfHangMillis(confirmed int) int {
 	if confirmed == 0 {
 		return 5000
 	}
-	return 2000
+	if confirmed < 5 {
+		return 2000
+	}
+	return 500 // five confirmed hangs: the tree spins on a whole class of inputs; still 100 x the normal time, still re-run once
 }
 
 func tail(s string, n int) string {
